@@ -1,6 +1,6 @@
 """C09 - first / follow / predict are exactly the textbook sets."""
 from __future__ import annotations
-from ..anacamp import index_nodes, lookup, run as run_campaign
+from ..anacamp import index_nodes, lookup, rejected_before_analysis, run as run_campaign
 from ..refsets import EPS
 from ..report import Check
 
@@ -21,6 +21,16 @@ def has_plus_nullable(g, rs):
 
 
 def judge(g, rs, rep, bump):
+    if rejected_before_analysis(g, rep):
+        # `e: ?1 e | A;`: rejected (E015 at the self-only branch) by the general check, which runs before
+        # the LL(1) stage - lelwel computes, shows and uses no set for this grammar, nothing to compare.
+        # Any set lelwel does return for it would contradict that reading of the pipeline.
+        idx = index_nodes(rep)
+        if any(nd["first"] is not None or nd["follow"] is not None or nd["predict"] is not None for nd in idx.values()):
+            bump("sets_present_after_general_check_error")
+        else:
+            bump("skipped_rejected_by_general_check_self_only_branch")
+            return {"viol": [], "nontrivial": False, "skipped": True}
     idx = index_nodes(rep)
     viol = []
     eps_ok = has_plus_nullable(g, rs)
